@@ -1,6 +1,7 @@
 """Scenario runner: distributes scenarios over worker processes (one group per PYTHONHASHSEED), explores every
 scenario symbolically, replays solver counterexamples on the real float64 code, cross-validates witnesses
 concretely, matches known findings, writes evidence, prints VIOLATION / KNOWN-FINDING lines."""
+import fnmatch
 import hashlib
 import importlib
 import json
@@ -84,7 +85,7 @@ def explore_scenario(h, desc, tier, profile=False):
         except Exception as e:  # noqa: pgmpy raised on this path
             tb = traceback.format_exc(limit=8)
             vals = M._current_values()
-            M.failures.append(mode.Failure("exception", M.key_prefix + "exception:" + type(e).__name__,
+            M.failures.append(mode.Failure("exception", (M.key_prefix + "exception:" + type(e).__name__).replace(" ", "_"),
                                            f"{type(e).__name__}: {e}\n{tb}", vals, kind="exception"))
         # remember the path condition for failures of this path (for beautification)
         for f in M.failures[nf:]:
@@ -160,7 +161,7 @@ def explore_scenario(h, desc, tier, profile=False):
             Mc, err = run_concrete(h, desc, cand)
             hit = [g for g in Mc.failures]
             if err and err[0] == "exception":
-                hit.append(mode.Failure("exception", M.key_prefix + "exception:" + err[1].split(":")[0], err[1], cand, kind="exception"))
+                hit.append(mode.Failure("exception", (M.key_prefix + "exception:" + err[1].split(":")[0]).replace(" ", "_"), err[1], cand, kind="exception"))
             if hit:
                 same = [g for g in hit if g.key == f.key] or hit
                 reproduced = dict(values={k: str(v) for k, v in cand.items()}, label=same[0].label, key=same[0].key,
@@ -194,7 +195,7 @@ def explore_scenario(h, desc, tier, profile=False):
                         g = Mc.failures[0]
                         lab, key, det = g.label, g.key, str(g.detail)[:1500]
                     else:
-                        lab, key, det = "exception", M.key_prefix + "exception:" + err[1].split(":")[0], err[1]
+                        lab, key, det = "exception", (M.key_prefix + "exception:" + err[1].split(":")[0]).replace(" ", "_"), err[1]
                     res["failures"].append(dict(label=lab, key=key, detail=det, kind="crossval", replay="reproduced",
                                                 values={k: str(v) for k, v in vals.items()},
                                                 reproduced=dict(values={k: str(v) for k, v in vals.items()}, label=lab, key=key, detail=det)))
@@ -380,7 +381,7 @@ def report(h, pid, a, seed, scen, idx, results, wall):
         if fl.get("replay") != "reproduced":
             unrepro.append(fl)
             continue
-        k = next((kn for kn in known if kn[0] == pid and kn[1] and fl["key"].startswith(kn[1])), None)
+        k = next((kn for kn in known if kn[0] == pid and kn[1] and fnmatch.fnmatchcase(fl["key"], kn[1])), None)
         if k:
             known_hits.append((k, fl))
         else:
@@ -390,7 +391,7 @@ def report(h, pid, a, seed, scen, idx, results, wall):
     for k, fl in known_hits:
         if k[1] not in printed:
             printed.add(k[1])
-            print(f"KNOWN-FINDING: property={pid} {k[2]}")
+            print(f"KNOWN-FINDING: {k[2]}")
     vio_keys = {}
     for fl in violations:
         vio_keys.setdefault(fl["key"], fl)
